@@ -279,3 +279,15 @@ package PVM
 //@   ensures oog: old(*input.VM.Gas) < 10 ==> result.ExitReason == ExitOOG && frame_only(*input.VM.Gas)
 //@   ensures ok: old(*input.VM.Gas) >= 10 ==> result.ExitReason == ExitContinue && input.VM.Registers[7] == uint64(*input.VM.Gas) && frame_only(*input.VM.Gas, input.VM.Registers[7])
 //@   assigns *input.VM.Gas, input.VM.Registers[7]
+
+// ---- single-step engine (inner machines): handler table execInstructions ----
+//@ readonly execInstructions
+//@ pred step_wf(interp, pc, skipLength) = interp != nil && interp.Program != nil && interp.Memory != nil && wf_code_v(*interp.Program) && int(pc) < len(interp.Program.InstructionData) && uint64(skipLength) <= 24 && uint64(pc) + uint64(skipLength) < uint64(len(interp.Program.InstructionData))
+//@ pred wf_mem_s(m) = wf_mem(m) && all(p, uint32, pages_apart(m, p, p+1))
+//@ table verifSingleStepHandler ss_safe
+//@   props C02 C33
+//@   spec pvm.smt2
+//@   key op uint8 0,1,10,20,30..33,40,50..62,70..73,80..90,100..111,120..161,170..175,180,190..230
+//@   opt noframe
+//@   requires wf: step_wf(interp, pc, skipLength) && wf_mem_s(interp.Memory) && wf_jt_v(*interp.Program)
+//@   ensures ok: true
